@@ -225,9 +225,9 @@ func VerifC07History(k int, capMode int) {
 		// paths whose stores have the same shape (live ids and issued counts per mailbox) merge;
 		// different shapes stay separate so that map contents remain concrete
 		if step < k {
-			vrf.Regroup(ref.shape(names)*4 + mcap)
+			vrf.Regroup(ref.shape(names)*4 + mcap + 64*vrfInternals(st, names))
 		}
 	}
-	vrf.Join()
+	// no Join here: the final states stay separate (their covers/assertions are grouped by label)
 	vrf.Cover("history-done")
 }
